@@ -189,6 +189,20 @@ CLAIMED = {
    design_ref="DESIGN.md §5 C15",
    note="Trusted: Python-subset semantics and jnp / tree_util models of vf/pyvc.py; assumed contracts of jax.random.choice / split / "
         "uniform; iteration rule; z3. Column counts and key sets are concrete (1..2)."),
+ "C08": dict(
+   engine="pyvc",
+   text="The constructors of DataGeneratorODE / CubicMeshPDEStatio / CubicMeshPDENonStatio are executed symbolically (n, nt, nb, "
+        "batch sizes, box bounds of any sign all symbolic; uniform and grid methods; dim 1 and 2; with and without border) and "
+        "establish WF: declared counts and shapes, every time / interior point in the closed domain, every border row on its facet "
+        "(pinned coordinate == the facet's bound, free coordinate in range, facets ordered xmin, xmax, ymin, ymax), the pair of end "
+        "points in 1-D; get_batch returns the declared shapes with rows in the domain / on their facets, and WF is preserved by "
+        "permutations (iteration rule). The float behaviour of the grid counts is a bounded stand-in on the real constructors "
+        "(labelled bounded, not counted as proved).",
+   technique="contract-based deductive verification: source-level VC generation (ast symbolic executor incl. dataclass construction "
+             "and __post_init__) discharged by z3; bounded native enumeration for the float-dependent grid count",
+   design_ref="DESIGN.md §5 C08",
+   note="Trusted: Python-subset semantics and jnp models of vf/pyvc.py (floats as reals), assumed contracts of jax.random.uniform "
+        "(closed range), split and choice, the iteration rule, z3. 2-D grid sampling requires n to be a perfect square."),
 }
 PENDING_REASON = "check not built yet (framework under construction); will be claimed once its contracts verify"
 NA = {}
